@@ -100,7 +100,7 @@ func TestRaceStress(t *testing.T) {
 	defer cc.Close()
 	stub := tunnelpb.NewTunnelServiceClient(cc)
 
-	var calls, okCalls, emptyTrailers atomic.Int64
+	var calls, okCalls, emptyTrailers, serveAfterStop atomic.Int64
 	var wg sync.WaitGroup
 	seedBase := seed()
 
@@ -239,6 +239,51 @@ func TestRaceStress(t *testing.T) {
 			}
 		}(g)
 	}
+	// Serve racing with Stop / GracefulStop from the very start: whichever comes first, once Stop has
+	// returned every Serve call has returned too (refused, or served and ended)
+	wg.Add(1)
+	go func() {
+		defer wg.Done()
+		rng := rand.New(rand.NewSource(seedBase*1301))
+		for time.Now().Before(deadline) {
+			rts := grpctunnel.NewReverseTunnelServer(stub)
+			rts.RegisterService(stressDesc(), struct{}{})
+			ctx, cancel := context.WithCancel(context.Background())
+			n := 1 + rng.Intn(3)
+			var served sync.WaitGroup
+			for i := 0; i < n; i++ {
+				served.Add(1)
+				d := time.Duration(rng.Intn(400)) * time.Microsecond
+				go func() {
+					defer served.Done()
+					time.Sleep(d)
+					_, _ = rts.Serve(ctx)
+				}()
+			}
+			stopped := make(chan struct{})
+			d := time.Duration(rng.Intn(400)) * time.Microsecond
+			graceful := rng.Intn(3) == 0
+			go func() {
+				time.Sleep(d)
+				if graceful {
+					go rts.GracefulStop()
+				}
+				rts.Stop()
+				close(stopped)
+			}()
+			<-stopped
+			time.Sleep(2 * time.Millisecond) // a Serve call that had not started yet is refused now
+			allReturned := make(chan struct{})
+			go func() { served.Wait(); close(allReturned) }()
+			select {
+			case <-allReturned:
+			case <-time.After(3 * time.Second):
+				serveAfterStop.Add(1)
+			}
+			cancel()
+			<-allReturned
+		}
+	}()
 	for g := 0; g < 3; g++ {
 		wg.Add(1)
 		go func(g int) {
@@ -265,7 +310,7 @@ func TestRaceStress(t *testing.T) {
 	if out != "" {
 		_ = os.MkdirAll(out, 0o755)
 		_ = os.WriteFile(out+"/race.stats", []byte(
-			"calls="+itoa(calls.Load())+" ok="+itoa(okCalls.Load())+" ok_without_trailers="+itoa(emptyTrailers.Load())+"\n"), 0o644)
+			"calls="+itoa(calls.Load())+" ok="+itoa(okCalls.Load())+" ok_without_trailers="+itoa(emptyTrailers.Load())+" serve_running_after_stop="+itoa(serveAfterStop.Load())+"\n"), 0o644)
 	}
 	t.Logf("race stress: calls=%d ok=%d ok_without_trailers=%d", calls.Load(), okCalls.Load(), emptyTrailers.Load())
 }
